@@ -1,6 +1,7 @@
 """C01 multiplication is exact in every regime."""
 import random, itertools
 from runner import Case
+from sweeputil import sweep_case
 from rpc import hx, I, split_reply
 import gen
 
@@ -137,6 +138,12 @@ def specs(rng, tier, wid, nw, env):
     for i, s in enumerate(E):
         if i % nw == wid:
             yield s + (rng.getrandbits(48),)
+    # in-driver kernel sweeps against the limb reference (fenced operands): mul_1/addmul_1/submul_1, mul/sqr/mullow basecases, mul_n/sqr dispatch
+    k = 0
+    for grp, top in (('mul1', 40 if tier == 'quick' else 300), ('kern2', 40 if tier == 'quick' else 400)):
+        for lo in range(1, top + 1, 4):
+            k += 1
+            if k % nw == wid: yield ('sweep', grp, lo, min(lo + 3, top), rng.getrandbits(40))
     # (6) mpz level + seeded random part
     n = (12000 if tier == 'quick' else 150000)
     for i in range(n):
@@ -166,6 +173,7 @@ SIS = [0, 1, -1, 2, -2, (1 << 63) - 1, -(1 << 63), -(1 << 63) + 1, 1 << 32, -(1 
 def build(spec, env):
     kind = spec[0]; r = random.Random(spec[-1]); th = env.th
     B = 1 << 64
+    if kind == 'sweep': return sweep_case(spec[1], spec[2], spec[3], spec[4], 'C01')
     if kind in ('mpn_mul', 'fft_main'):
         _, un, vn, cu, cv, _s = spec
         a = gen.nat(r, un, cu); b = gen.nat(r, vn, cv)
